@@ -2,6 +2,10 @@
 """Generates MANIFEST.json. Edit BUILT / texts here, run, commit."""
 import json
 BUILT = {
+ "C05": dict(level="exploration", technique="bounded-exhaustive product of prop forms, collisions, :required spellings, include shapes and shorthand against a reference scope model",
+   text="17 forms of prop a (omitted, static, interpolated, bound to 11 typed values, v-bind:) x 3 forms of prop b x includer collision x front-matter collision x 5 :required spellings x 4 shapes (single, twice, in v-for, nested) x explicit/shorthand: values and Go types printed inside the component, what the includer's following content sees, error iff a required name is missing (naming it, with no output), shorthand byte-identical.",
+   note="Trusts the scope model in checks/c05.go. A required name visible from the includer or the front-matter without being passed, and bindings of nil/undefined, are unconstrained. Include depth <= 2.",
+   ref="DESIGN.md §3 C05"),
  "C03": dict(level="exploration", technique="bounded-exhaustive enumeration of sibling chains x separators x placements against a reference chain evaluator; value x reach x consumer truthiness table",
    text="Every sibling list of length <=5 (thorough: <=6) over {plain, v-if T/F, v-else-if T/F, v-else} x 4 separators x 6 placements, against a 40-line reference chain evaluator; 46 Go values x 3 ways of reaching them x 6 truthiness consumers against the documented table and against each other.",
    note="Trusts the reference evaluator in checks/c03.go. Orphan v-else/v-else-if and members after v-else are unconstrained apart from the plain siblings; typed nil pointers, NaN and the string \"false\" (pinned falsy) are only checked for uniformity.",
